@@ -165,7 +165,7 @@ def parse(text):
     return v
 
 
-def parse_dump(path, only=None):
+def parse_dump(path, only=None, skip_if=None):
     """Yield one dict {var: value} per state of a TLC -dump file."""
     with open(path, "r") as f:
         cur = None
@@ -176,7 +176,7 @@ def parse_dump(path, only=None):
             nonlocal name, buf
             if name is not None:
                 if only is None or name in only:
-                    cur[name] = parse("".join(buf))
+                    cur[name] = "".join(buf)
             name = None
             buf = []
 
@@ -184,7 +184,8 @@ def parse_dump(path, only=None):
             if line.startswith("State "):
                 if cur is not None:
                     flush_var()
-                    yield cur
+                    if not (skip_if and any(skip_if in v for v in cur.values())):
+                        yield {k: parse(v) for k, v in cur.items()}
                 cur = {}
                 name = None
                 buf = []
@@ -202,8 +203,8 @@ def parse_dump(path, only=None):
                 buf.append(line)
         if cur is not None:
             flush_var()
-            if cur:
-                yield cur
+            if cur and not (skip_if and any(skip_if in v for v in cur.values())):
+                yield {k: parse(v) for k, v in cur.items()}
 
 
 def to_tla(v):
